@@ -1,7 +1,10 @@
 // Package checks holds one CheckSpec per property.
 package checks
 
-import "verifharness/internal/mon"
+import (
+	"verifharness/internal/logenc"
+	"verifharness/internal/mon"
+)
 
 var registry []*mon.CheckSpec
 
@@ -23,3 +26,5 @@ func Find(id string) *mon.CheckSpec {
 func plainPhase(name string) func(string) []mon.PhaseSpec {
 	return func(string) []mon.PhaseSpec { return []mon.PhaseSpec{{Name: name, Flavour: "plain"}} }
 }
+
+func logencRuleCorpus() []string { return logenc.RuleCorpus() }
